@@ -66,34 +66,34 @@ type PathResult struct {
 }
 
 type RunResult struct {
-	Harness      string
-	Paths        int
-	Steps        int
-	Outcomes     map[string]int
-	Violations   []PathResult
-	Inconclusive []PathResult
-	Witnesses    []PathResult
-	Funcs        map[string]int
-	Queries      int
-	Unsat        int
-	Sat          int
-	Unknown      int
-	SolverS      float64
-	WallS        float64
-	AssertsTotal int
+	Harness         string
+	Paths           int
+	Steps           int
+	Outcomes        map[string]int
+	Violations      []PathResult
+	Inconclusive    []PathResult
+	Witnesses       []PathResult
+	Funcs           map[string]int
+	Queries         int
+	Unsat           int
+	Sat             int
+	Unknown         int
+	SolverS         float64
+	WallS           float64
+	AssertsTotal    int
 	PathsWithAssert int
-	Reached      map[string]int
-	Truncated    bool
+	Reached         map[string]int
+	Truncated       bool
 }
 
 type RunOpts struct {
-	Workers    int
-	Solver     string
-	MaxPaths   int
-	MaxViol    int
-	Witnesses  int
-	Deadline   time.Time
-	Verbose    bool
+	Workers   int
+	Solver    string
+	MaxPaths  int
+	MaxViol   int
+	Witnesses int
+	Deadline  time.Time
+	Verbose   bool
 }
 
 func DefaultConfig() *Config {
